@@ -250,7 +250,9 @@ def histories(ctx, n, steps):
                 aff = ref.IDENT
                 for it in its:
                     aff = ref.aff_add(aff, it[1])
-                rid = ctx.add('rs.sum', lst([it[0] for it in its]), expect=pts.expect_rs(aff), cls='history')
+                enc_ = ref.ristretto_encode(aff).hex()
+                rid = ctx.add('rs.sum', lst([it[0] for it in its]),
+                              expect=pts.both(pts.expect_rs(aff), *[pts.tok_is(i_, enc_) for i_ in (2, 3, 4, 5)]), cls='history')
                 regs.append((ctx.ref(rid, 1), aff, sum(it[2] for it in its) % L))
             elif op == 'roundtrip':
                 rid = ctx.add('rs.id', tp, expect=pts.expect_rs(ap), cls='history')
@@ -303,7 +305,7 @@ def task(prop, seed, size, cfgbins):
 
 def run(prop, tier, seed, t0):
     from .. import plan
-    cfgs = ['simd', 'serial32', 'fiat64', 'avx512'] if tier == 'quick' else plan.ALL_CFGS
+    cfgs = plan.ALL_CFGS
     bins, notes, failed = plan.bins_for(cfgs, ('rel', 'chk') if tier == 'thorough' else ('rel',))
     if failed:
         return plan.fail_build(prop, failed)
